@@ -1,40 +1,10 @@
-(** C01 by composition, part 3: the verdict of the general fork case of comparePopScore ([compare_fork] of the POP
-    machine, run with the scorer [score_of] built from the Score model) in two reachable states with the same active
-    chain, against a candidate whose chain is the same in both and carries no cached failed mark. *)
+(** C01 by composition, part 3: the fork block that comparePopScore computes ([lca] of the POP machine) is the same in
+    two reachable states with the same active chain, for a candidate whose chain is the same in both. *)
 From Coq Require Import List ZArith NArith Bool Lia Permutation.
 Import ListNotations.
 From VB Require Import Pop.SmDefs Pop.SmProofs Pop.SmWf Pop.SmTruth Pop.SmCmp Pop.SmAll Pop.SmCoh Pop.SmFull Pop.SmTree
      Pop.C01Compose Pop.C01Verdict.
 Local Open Scope Z_scope.
-
-(** the outcomes of the general fork case, read off the code *)
-Lemma compare_fork_shape : forall sc cr s c bc bt s' r,
-    compare_fork pstate ccmd cexec cunexec sc cr s c bc bt = Ok (s', r) ->
-    exists fork bf,
-      lca ccmd (blocks _ _ s) (2 * fuel_of _ _ s) (tip _ _ s) c = Some fork /\ bfind (blocks _ _ s) fork = Some bf /\
-      ((negb (cr (b_h _ bf) (b_h _ bt)) && negb (cr (b_h _ bf) (b_h _ bc)) = true /\ r = 0) \/
-       (negb (cr (b_h _ bf) (b_h _ bt)) && negb (cr (b_h _ bf) (b_h _ bc)) = false /\
-        exists t ok, apply pstate ccmd cexec cunexec s fork c = Ok (t, ok) /\
-          ((ok = false /\ r = 1) \/
-           (ok = true /\ ((0 <= sc t c /\ r = sc t c) \/ (sc t c < 0 /\ (r = sc t c \/ r = 1))))))).
-Proof.
-  intros sc cr s c bc bt s' r H. unfold compare_fork in H.
-  destruct (lca ccmd (blocks pstate ccmd s) _ (tip pstate ccmd s) c) as [fork|] eqn:El; [|discriminate].
-  destruct (bfind (blocks pstate ccmd s) fork) as [bf|] eqn:Ef; [|discriminate].
-  exists fork, bf. split; [reflexivity|]. split; [exact Ef|].
-  destruct (negb (cr _ _) && negb (cr _ _)).
-  { inversion H. left. split; reflexivity. }
-  right. split; [reflexivity|].
-  dbind H. destruct a as [t ok]. exists t, ok. split; [reflexivity|].
-  destruct ok; cbn [negb] in H; [|inversion H; left; split; reflexivity].
-  right. split; [reflexivity|].
-  destruct (Z.leb 0 (sc t c)) eqn:Sg.
-  - apply Z.leb_le in Sg. dbind H. inversion H. left. split; [exact Sg|reflexivity].
-  - apply Z.leb_gt in Sg. right. split; [exact Sg|].
-    dbind H. destruct a as [s2 vf]. dbind H. dbind H. destruct a0 as [s4 ok2].
-    destruct ok2; [inversion H; left; reflexivity|].
-    dbind H. dbind H. destruct a1 as [s6 ok3]. destruct ok3; [inversion H; right; reflexivity|discriminate].
-Qed.
 
 (** the fork block found by [lca] is the same in both states *)
 Lemma fork_agree : forall base s1 s2 c f1 f2,
@@ -92,53 +62,5 @@ Proof.
   - split; [exact Ea1|]. split; [exact Eht|exact Ehc].
 Qed.
 
-Section ForkVerdict.
-  Variable cfg : VB.Score.CmpDefs.config.
-  Variable ki : Z.
-  Variable ta : bool.
-  Variable alt_time : N -> Z.
-  Variable spv : (N -> nat) -> N -> option Z.
-  Variable sp_times : (N -> nat) -> list Z.
-  Hypothesis SD : sp_determined spv.
-  Hypothesis TD : sp_times_determined sp_times.
-
-  Notation sc := (score_of cfg ki ta alt_time spv sp_times).
-  Notation cr := (crossed_of ki).
-
-  (** no block of c's chain carries a failed mark *)
-  Definition clean_all (s : cst) (c : N) : Prop := forall n, clean s c n.
-
-  (** C01, verdict of the general fork case.  PARTIAL: when the candidate outscores the active chain the code
-      re-validates the never-validated part of the candidate without the active chain's payloads; that outcome is not
-      related here (it needs the truthfulness of the fully-valid level, C20, across the two states), so the conclusion
-      allows exactly that disagreement: one instance answers the (negative) score, the other 1. *)
-  Theorem fork_verdict_history_independent_partial : forall base s1 s2 c bc1 bt1 bc2 bt2 s1' r1 s2' r2,
-      reachable base s1 -> reachable base s2 -> active_chain s1 = active_chain s2 ->
-      bfind (blocks _ _ s1) c = Some bc1 -> bfind (blocks _ _ s2) c = Some bc2 ->
-      bfind (blocks _ _ s1) (tip _ _ s1) = Some bt1 -> bfind (blocks _ _ s2) (tip _ _ s2) = Some bt2 ->
-      chain_of s1 c = chain_of s2 c ->
-      clean_all s1 c -> clean_all s2 c ->
-      compare_fork pstate ccmd cexec cunexec sc cr s1 c bc1 bt1 = Ok (s1', r1) ->
-      compare_fork pstate ccmd cexec cunexec sc cr s2 c bc2 bt2 = Ok (s2', r2) ->
-      r1 = r2 \/ (r1 < 0 /\ r2 = 1) \/ (r1 = 1 /\ r2 < 0).
-  Proof.
-    intros base s1 s2 c bc1 bt1 bc2 bt2 s1' r1 s2' r2 R1 R2 HA Fc1 Fc2 Ft1 Ft2 HC Cl1 Cl2 H1 H2.
-    destruct (compare_fork_shape _ _ _ _ _ _ _ _ H1) as (f1 & bf1 & L1 & Ff1 & O1).
-    destruct (compare_fork_shape _ _ _ _ _ _ _ _ H2) as (f2 & bf2 & L2 & Ff2 & O2).
-    destruct (fork_agree base s1 s2 c f1 f2 R1 R2 HA (ex_intro _ _ Fc1) (ex_intro _ _ Fc2) HC L1 L2) as (<- & Ht & Hin & Ehf & Eht & Ehc).
-    rewrite <- Ht in Ft2.
-    rewrite <- (hgt_find _ _ _ Ff1), <- (hgt_find _ _ _ Ft1), <- (hgt_find _ _ _ Fc1) in O1.
-    rewrite <- (hgt_find _ _ _ Ff2), <- (hgt_find _ _ _ Ft2), <- (hgt_find _ _ _ Fc2), <- Ehf, <- Eht, <- Ehc in O2.
-    destruct O1 as [[C1 ->]|[C1 (t1 & ok1 & A1 & O1)]]; destruct O2 as [[C2 ->]|[C2 (t2 & ok2 & A2 & O2)]]; try congruence.
-    { left. reflexivity. }
-    destruct (candidate_validation_history_independent base s1 s2 c f1 t1 ok1 t2 ok2 R1 R2 HA
-                (ex_intro _ _ Fc1) (ex_intro _ _ Fc2) HC Hin (Cl1 _) (Cl2 _) A1 A2) as (Hok & _).
-    subst ok2. destruct ok1.
-    2:{ destruct O1 as [[_ ->]|[? _]]; [|discriminate]. destruct O2 as [[_ ->]|[? _]]; [|discriminate]. left. reflexivity. }
-    destruct O1 as [[? _]|[_ O1]]; [discriminate|]. destruct O2 as [[? _]|[_ O2]]; [discriminate|].
-    destruct (candidate_score_history_independent cfg ki ta alt_time spv sp_times SD TD base s1 s2 c f1 t1 t2 R1 R2 HA
-                (ex_intro _ _ Fc1) (ex_intro _ _ Fc2) HC Hin (Cl1 _) (Cl2 _) A1 A2) as (_ & _ & Es).
-    rewrite <- Es in O2.
-    destruct O1 as [[G1 ->]|[G1 [->| ->]]]; destruct O2 as [[G2 ->]|[G2 [->| ->]]]; try lia; left; reflexivity.
-  Qed.
-End ForkVerdict.
+(** no block of c's chain carries a failed mark (BLOCK_FAILED_BLOCK / _POP / _CHILD) *)
+Definition clean_all (s : cst) (c : N) : Prop := forall n, clean s c n.
